@@ -59,6 +59,28 @@ class SMatch:
         self.s = s
 
 
+class SYieldComp:
+    """Ghost value for `for a in R1: for b in R2(a): yield elt(a, b)`."""
+
+    def __init__(self, vars_, elt):
+        self.vars = vars_
+        self.elt = elt
+
+    def member(self, w):
+        conds = [it.contains(v) for v, it in self.vars]
+        conds.append(L.eq(self.elt, w))
+        body = L.And(*conds)
+        if isinstance(body, bool):
+            return body
+        elts = self.elt if isinstance(self.elt, tuple) else (self.elt,)
+        ws = w if isinstance(w, tuple) else (w,)
+        vs = [v for v, _ in self.vars]
+        if len(elts) == len(ws) and all(any(e is v or (L.is_z3(e) and e.eq(v)) for v in vs) for e in elts) and len(set(map(str, elts))) == len(vs):
+            subs = [(e, L.to_z3(x)) for e, x in zip(elts, ws)]
+            return z3.substitute(L.And(*[it.contains(v) for v, it in self.vars]), *subs)
+        return z3.Exists(vs, body)
+
+
 class SBoundBuiltin:
     def __init__(self, recv, name):
         self.recv = recv
@@ -568,9 +590,45 @@ class Interp:
             return
         spec = self.loop_spec(s, fr)
         if spec is None:
+            comp = self.try_yield_nest(s, fr, it)
+            if comp is not None:
+                f = fr
+                while f.fi is None or not f.fi.is_generator:
+                    f = f.outer
+                f.yields.append(comp)
+                self.exec_block(s.orelse, fr)
+                return
             raise SymError("for loop at line %d of %s has a symbolic trip count and no invariant" % (
                 s.lineno, fr.fi.qualname))
         self.cut_loop(s, fr, spec, it)
+
+    def try_yield_nest(self, s, fr, it):
+        """A loop nest whose only effect is `yield <tuple of loop variables>` is a
+        comprehension: summarised exactly (no invariant needed)."""
+        vars_ = []
+        node = s
+        inner = Frame(fr.fi, {}, fr.mod, outer=fr, loopspecs=fr.loopspecs)
+        inner.loops = fr.loops
+        cur_it = it
+        while True:
+            if not isinstance(node.target, ast.Name) or node.orelse:
+                return None
+            v = self.ctx.fresh_int(node.target.id)
+            if cur_it.contains is None:
+                return None
+            vars_.append((v, cur_it))
+            inner.env[node.target.id] = v
+            if len(node.body) != 1:
+                return None
+            b = node.body[0]
+            if isinstance(b, ast.For):
+                cur_it = self.make_iter(self.eval(b.iter, inner), b.iter)
+                node = b
+                continue
+            if isinstance(b, ast.Expr) and isinstance(b.value, ast.Yield) and b.value.value is not None:
+                elt = self.eval(b.value.value, inner)
+                return SYieldComp(vars_, elt)
+            return None
 
     def inv_ns(self, fr, k=None, old=None):
         d = dict(fr.env)
